@@ -98,7 +98,7 @@ theorem extractPoints_nodes (keep : Bool) (sz : Sizer) (cap : Int) (m : Metric) 
   by_cases h : (m.mmeta.ty == 0) = true
   · simp [h]
   · simp only [h, Bool.false_eq_true, if_false, Metric.nodes]
-    have := leaf_nodes (fitsBy sz (itemSize sz))
+    have := leaf_nodes (fitsBy sz (pointSize sz))
       ⟨innerCap sz cap (metricSize sz { mmeta := fragMeta keep m.mmeta, points := [] }) - (sz.delta cap - cap), 0⟩ m.points
     exact ⟨by omega, fun h => by have := this.2 h; omega⟩
 
